@@ -91,23 +91,6 @@ def run(tier, seed):
                 trecs.append(tr)
     bad, stats = vlib.tlc_validate("Api_Trace.tla", "Api_Trace.cfg", recs, tag="c15")
     v.add_tv("Api_Trace[c15]", stats, len(recs))
-    if bad:
-        # cross-property rule (DESIGN.md 2.4): re-run once with an unbounded memo table
-        idx = [int(rid) for rid in bad]
-        hc2 = [dict(hcases[i], calls=[dict(c, memo_cap=None) for c in hcases[i]["calls"]]) for i in idx]
-        res2 = vlib.run_cases(hc2, tag="c15u", limit_ms=60000)
-        recs2 = []
-        for h, res in zip(hc2, res2):
-            rs = res["results"]
-            recs2.append({"id": str(h["id"]), "kind": "c15", "strict": tree.result_summary(rs[0], want_skel=True), "inc": tree.result_summary(rs[1], want_skel=True),
-                          "junked": [tree.result_summary(x, want_skel=True) for x in rs[2:]]})
-        bad2, stats2 = vlib.tlc_validate("Api_Trace.tla", "Api_Trace.cfg", recs2, tag="c15v")
-        v.add_tv("Api_Trace[c15, unbounded memo]", stats2, len(recs2))
-        for rid in list(bad):
-            if rid not in bad2:
-                v.known_finding("D15", "parser result at the production memo capacity differs from the unbounded-memo result (memoised guarded failure)",
-                                ins[int(rid)][1][:200], ["C17"])
-                del bad[rid]
     for rid, reasons in bad.items():
         k, t, s = ins[int(rid)]
         v.violation("%s input %r: %s" % (s, t[:300], "; ".join(reasons)[:400]), {"kind": k, "text": t})
